@@ -44,7 +44,8 @@ def configs(tier, seed):
     for sizes in sizes_list:
         for fam in estim.FAMS:
             for solver, iters, cut in plan:
-                heavy = (solver == "IG_symL") or (solver == "MD_ls" and cut == 25) or iters >= 3 or (sizes != (2, 2, 2) and iters >= 2)
+                heavy = ((solver == "IG_symL") or (solver == "MD_ls" and cut == 25) or iters >= 3 or sizes != (2, 2, 2)
+                         or (solver in ("RDA", "IG") and iters >= 2 and fam not in ("oneway", "single", "empty")))
                 if tier == "quick" and solver in ("RDA", "IG") and iters >= 2 and fam not in ("oneway", "single", "empty"):
                     continue      # the mixtures of two BP outputs on overlapping cliques are in the thorough tier (minutes each)
                 if tier == "thorough":
@@ -77,7 +78,8 @@ def configs(tier, seed):
     for attrs, sizes, cat in cats:
         for sname, cliques in cat.items():
             for zm in ("none", "some"):
-                cfgs.append(dict(name="refit:%s:%s:%s" % (sname, sizes, zm), kind="refit", attrs=attrs, sizes=sizes, cliques=cliques, zmode=zm, cost=4))
+                cfgs.append(dict(name="refit:%s:%s:%s" % (sname, sizes, zm), kind="refit", attrs=attrs, sizes=sizes, cliques=cliques, zmode=zm, cost=4,
+                                 core=(max(sizes) <= 2 or len(sizes) <= 3), timeout=600))
     return cfgs
 
 
